@@ -420,6 +420,100 @@ fn random_ops(rng: &mut Rng, n: usize) -> Vec<Op> {
         .collect()
 }
 
+/// Machines built with and without tape autoload and fast loading, a host-supplied ROM set, then one host
+/// operation (tape insertion — which with autoload loads the built-in loader snapshot —, tape commands, a screen
+/// load, a snapshot save, a 48K/128K snapshot load): every byte of every ROM page still reads as supplied.
+fn host_rom_survives(o: &Opts, rep: &mut Report) {
+    let mut rng = Rng::new(o.seed ^ 0x4057);
+    for k in 0..o.n(24, 240) as usize {
+        let m128 = k % 2 == 1;
+        let autoload = (k / 2) % 2 == 0;
+        let op = (k / 4) % 6;
+        let (s0, s1) = (1 + rng.below(200) as usize, 1 + rng.below(200) as usize);
+        let mut c = Cfg::new(m128);
+        c.fastload = k % 3 == 0;
+        let mut st = settings(&c);
+        st.autoload_enabled = autoload;
+        let mut e: Emu = match rustzx_core::Emulator::new(st, Ctx) {
+            Ok(e) => e,
+            Err(_) => panic!("Emulator::new failed"),
+        };
+        let mut dummy = vec![];
+        supply_roms(&mut e, m128, Some((s0, s1)), &mut dummy);
+        let tap = || {
+            let mut blk = vec![0xFFu8, 1, 2, 3];
+            let par = blk.iter().fold(0u8, |a, b| a ^ b);
+            blk.push(par);
+            let mut t = vec![blk.len() as u8, 0];
+            t.extend_from_slice(&blk);
+            t
+        };
+        let what = match op {
+            0 | 1 => {
+                let _ = e.load_tape(rustzx_core::host::Tape::Tap(VAsset::new(tap())));
+                if op == 1 {
+                    e.play_tape();
+                    let _ = e.emulate_frames(std::time::Duration::from_secs(1));
+                    e.stop_tape();
+                    let _ = e.rewind_tape();
+                }
+                if op == 0 { "load_tape" } else { "load_tape, play, one frame, stop, rewind" }
+            }
+            2 => {
+                let _ = e.load_screen(rustzx_core::host::Screen::Scr(VAsset::new(vec![0x55; 6912])));
+                "load_screen"
+            }
+            3 => {
+                let _ = crate::c13::snap::save_sna(&mut e);
+                "save_snapshot"
+            }
+            4 => {
+                let src = crate::c13::snap::MState::fresh(m128);
+                let mut se = crate::c13::snap::build(&src);
+                if let Ok(b) = crate::c13::snap::save_sna(&mut se) {
+                    let _ = e.load_snapshot(rustzx_core::host::Snapshot::Sna(VAsset::new(b)));
+                }
+                "load_snapshot (SNA)"
+            }
+            _ => {
+                let _ = e.load_tape(rustzx_core::host::Tape::Tap(VAsset::new(tap())));
+                let _ = e.load_tape(rustzx_core::host::Tape::Tap(VAsset::new(tap())));
+                "load_tape twice"
+            }
+        };
+        // every ROM page: the page mapped now, and on an unlocked 128K the other one through the latch
+        let mut bad: Option<String> = None;
+        let (lat, en, _) = e.verif_paging();
+        let pages: Vec<usize> = if !m128 { vec![0] } else if en { vec![((lat >> 4) & 1) as usize, 1 - ((lat >> 4) & 1) as usize] } else { vec![((lat >> 4) & 1) as usize] };
+        for (i, pg) in pages.iter().enumerate() {
+            if i == 1 {
+                e.verif_write_io(0x7FFD, (lat & 0xEF) | ((*pg as u8) << 4));
+            }
+            let seed = if *pg == 0 { s0 } else { s1 };
+            for a in 0..0x4000usize {
+                let got = e.peek(a as u16);
+                if got != rom_byte(seed, a) && bad.is_none() {
+                    bad = Some(format!("ROM page {} at 0x{:04x} reads {:02x}, the supplied image holds {:02x}", pg, a, got, rom_byte(seed, a)));
+                }
+            }
+        }
+        rep.eval();
+        rep.count("host_rom_survives", format!("{} autoload={} m128={}", what, autoload as u8, m128 as u8));
+        if let Some(b) = bad {
+            rep.violation(Violation {
+                kind: Kind::SpecViolated,
+                key: format!("C06/host-rom/{}", what.split(&[' ', ','][..]).next().unwrap_or("op")),
+                what: format!("{} built with autoload={} fastload={}, host ROM set supplied, then {}: {}", if m128 { "128K" } else { "48K" }, autoload, c.fastload, what, b),
+                correspondence: "corr.C06.paging (0x0000-0x3FFF reads the ROM image supplied for the machine)".into(),
+                case: J::obj(vec![("text", J::s(format!("hostrom seed={} k={}", o.seed, k)))]),
+                implementation: b,
+                expected: "the supplied ROM image".into(),
+            });
+            return;
+        }
+    }
+}
+
 pub fn run(o: &Opts) -> Report {
     let mut rep = Report::new("C06");
     rep.rule = "exhaustive part: from every one of the 64 paging states (bank 0-7 x screen x ROM x lock) every one of the \
@@ -430,6 +524,11 @@ compared; plus whole-machine lock-step runs of CPU programs made of 16-bit loads
     let mut model = Model::spawn(&o.model, "C06");
 
     if let Some(text) = &o.replay {
+        if text.starts_with("hostrom") {
+            rep.sample(J::s(text.clone()));
+            host_rom_survives(o, &mut rep);
+            return rep;
+        }
         let (m128, roms, ops) = parse_case(text);
         rep.sample(J::s(text.clone()));
         if text.starts_with("sys ") {
@@ -441,6 +540,9 @@ compared; plus whole-machine lock-step runs of CPU programs made of 16-bit loads
         }
         return rep;
     }
+
+    // 0. the ROM the host supplied is what 0x0000-0x3FFF reads after every host operation that is not a ROM load
+    host_rom_survives(o, &mut rep);
 
     // 1. exhaustive 64 x 256 on the 128K (and the same values on the 48K, where nothing may change)
     let markers: Vec<Op> = {
